@@ -2,7 +2,7 @@
    Every theorem is closed by [exact] of a lemma proved in Glob/*Proofs.v. *)
 From KV Require Import Base.Prelude.
 From KV Require Import Glob.Conc Glob.ConcProofs Glob.ConcExamples.
-From KV Require Import Glob.GlobalsTypes Glob.GlobalsAllow Glob.GlobalsCheck Glob.GlobalsProofs Gen.Globals.
+From KV Require Import Glob.GlobalsTypes Glob.GlobalsAllow Glob.GlobalsCheck Glob.GlobalsProofs Gen.Globals Gen.DeepCopy.
 From KV Require Import Glob.OpenApiState Glob.OpenApiStateProofs Glob.OpenApiConc Glob.OpenApiConcProofs.
 
 (* Lock/once discipline soundness. For ANY program (any number of threads, each a list of atomic actions
@@ -33,6 +33,14 @@ Print Assumptions Gen_globals_disciplined.
 Theorem Gen_globals_vars_covered : forallb (var_covered var_prots allow_list) gen_global_vars = true.
 Proof. exact globals_vars_covered. Qed.
 Print Assumptions Gen_globals_vars_covered.
+
+(* Obligation over the GENERATED copy table (translate/deepcopy.go -> Gen/DeepCopy.v): the process-global default
+   transformer configuration (sync.Once in MakeDefaultConfig) reaches builds only through DeepCopy, which deep-copies
+   every reference-typed field with a DeepCopy method that allocates and copies. A field that is shared instead
+   (concurrent builds appending into the same backing array) breaks this. *)
+Theorem Gen_deepcopy_ok : deepcopy_ok gen_tc_fields gen_tc_copy_types = true.
+Proof. exact deepcopy_disciplined. Qed.
+Print Assumptions Gen_deepcopy_ok.
 
 (* The only rows excused as known findings: the two rows of the unlocked read in IsNamespaceScoped, and the
    store that clears schemaInit when a build names a built-in version. *)
